@@ -1,9 +1,11 @@
 // C19-O5 / C13-O4 / C17-O1: NameSet (src/soplex/nameset.h, nameset.cpp) against a reference list of strings.
 // The NameSet is built by its real constructor with NMAX entries / MEMMAX bytes, large enough that neither reMax() nor
-// memRemax() (nor, unless it is the function under test, memPack()) is needed: the obligations bound the recursion/call depth
-// of these functions to 0 ("unwindset"), so the solver PROVES that they are not reached instead of assuming it.
+// memRemax() (nor, unless it is the function under test, memPack()), nor the rehash inside DataHashTable::add is needed:
+// these functions are replaced (ll2c "replace") by models that assert "not reached" (ids 99/98), so the solver PROVES that
+// no relocation happens within the bounds instead of assuming it.
 // Names: NUL-terminated strings of length 0..MAXL drawn with repetition from a concrete pool (see below), duplicates and the
 // empty string included.
+// Copy construction / assignment of NameSet are declared private and not defined ("Blocked"): nothing to check.
 //
 // nameset.cpp is included here (not via repo_srcs) because NameSet::add/memPack copy the text with spxSnprintf(), a varargs
 // function (vsnprintf) that the IR->C translator cannot encode; in the solver build it is replaced by a 4-argument model of
@@ -427,11 +429,14 @@ extern "C" void h_ns_add_packs()
 }
 // add(const NameSet&) / add(DataKey[], const NameSet&): union; names already present are skipped
 #ifndef NB2
-#define NB2 2
+#define NB2 2      // names in the source set
+#endif
+#ifndef NB1
+#define NB1 1      // names already in the destination set
 #endif
 extern "C" void h_ns_add_set()
 {
-   NameSet ns(NMAX, MEMMAX); Ref r; build(ns, r, NB2);
+   NameSet ns(NMAX, MEMMAX); Ref r; build(ns, r, NB1);
    NameSet other(NMAX, MEMMAX);
    Ref o; build(other, o, NB2);
    int withkeys = vp_int_in(0, 1);
